@@ -466,6 +466,7 @@ MUTANTS += [
     M("default cadence is every second iteration", _B, "checkpoint_every = 1\n", "checkpoint_every = 2\n", "C12.default"),
 ]
 NEUTRALS = [
+    __import__("aspire_sa.rules.smcloop", fromlist=["HELPER_NEUTRAL"]).HELPER_NEUTRAL,
     M("cadence guard written as >= 1", _B, "and checkpoint_every > 0\n", "and checkpoint_every >= 1\n"),
     M("forced checkpoint positional", _B, "maybe_checkpoint(force=True)", "maybe_checkpoint(True)"),
     M("cadence disjuncts swapped", _B, "should_checkpoint = force or (\n                checkpoint_every is not None\n                and checkpoint_every > 0\n                and iterations % checkpoint_every == 0\n            )",
